@@ -62,7 +62,12 @@ LADDER = [8, 10, 12, 14]
 LOW_RUNGS = [4, 6]
 ORDER_BOUND = {4: 5e-4, 6: 2e-5, 8: 1e-6, 10: 1e-6, 12: 1e-8, 14: 1e-8}   # worst seen: 3.9e-5 1.1e-6 3.9e-8 8.3e-10 2.2e-10 5.0e-12
 DECAY = 0.7
-FLOOR = 2e-11
+# the decay rule applies only while the error is above FLOOR.  It was 2e-11, ten times the worst error seen at order 12 in
+# calibration; a quick run with VERIF_SEED=3 then met a coarse two-component mesh whose error went 4.4e-11 -> 3.6e-11 from order
+# 10 to 12 (five orders of magnitude below the property's tolerance) and raised a FALSE alarm: the property says the error is
+# quadrature error below the stated tolerance, not that it keeps shrinking geometrically at the 1e-11 level, where the
+# convergence of the near-singular integrals of close non-adjacent pairs is slower.  The absolute bounds per order stay.
+FLOOR = 1e-9
 SIDE_TOL = 1e-13
 MIN_DIST = 1.0          # in units of h
 NEAR = 2.0              # "within 2 diameters": non-trivial
